@@ -148,6 +148,7 @@ type wSess struct {
 	stopped bool // write loop has exited
 	pause   atomic.Bool
 	needClean atomic.Bool // server stopped the session: cleanUp is due on the dispatching goroutine
+	abandoned atomic.Bool // the client stopped polling ("abandon"): the harness no longer refreshes lastTouched
 	mu      sync.Mutex
 }
 
@@ -407,7 +408,7 @@ func (w *wWorld) tick(d time.Duration) {
 		d -= step
 		now := time.Now()
 		for _, ss := range w.sess {
-			if !ss.isClosed() {
+			if !ss.isClosed() && !ss.abandoned.Load() {
 				wTouch(ss.s, now)
 			}
 		}
@@ -583,7 +584,7 @@ func (ss *wSess) isClosed() bool {
 
 // sendRaw dispatches bytes as the network read loop would. No settle.
 func (ss *wSess) sendRaw(raw []byte) {
-	if ss.isClosed() {
+	if ss.isClosed() || ss.abandoned.Load() {
 		return
 	}
 	wTouch(ss.s, time.Now())
@@ -910,6 +911,11 @@ func wTrimStack(b []byte) string {
 func wTouch(s *Session, now time.Time) {
 	st := globals.sessionStore
 	st.lock.Lock()
+	if s.proto == LPOLL && s.lpTracker != nil {
+		if _, live := st.sessCache[s.sid]; live {
+			st.lru.MoveToFront(s.lpTracker)
+		}
+	}
 	s.lastTouched = now
 	st.lock.Unlock()
 }
